@@ -527,23 +527,21 @@ theorem mem_reach {s : State} {a : Nat} :
   simp [reach]
 
 /-- every internally reachable array is allocated; everything the caller holds is allocated; an array reachable
-    from `_current` is held by the caller only if the caller asked for it to be stored there by reference; an array
-    reachable from `_history` or the results cache is held by the caller only if it came in through `update_from_dict` -/
+    from `_current` is held by the caller only if the caller asked for it to be stored there by reference (`copy=False`);
+    an array reachable from `_history` or from the results cache is never held by the caller -/
 structure Inv (s : State) : Prop where
   reach_lt : ∀ a : Nat, a ∈ reach s → a < s.heap.length
   esc_lt : ∀ a : Nat, a ∈ s.escaped → a < s.heap.length
   sep : ∀ a : Nat, a ∈ dictAddrs s.current → a ∈ s.escaped → a ∈ s.imported
-  sepH : ∀ a : Nat, a ∈ histAddrs s.history ∨ a ∈ cacheAddrs s.cache → a ∈ s.escaped → a ∈ s.importedH
+  sepH : ∀ a : Nat, a ∈ histAddrs s.history ∨ a ∈ cacheAddrs s.cache → a ∉ s.escaped
 
 theorem Inv.of_step {s s' : State} (hI : Inv s) (hext : Ext s.heap s'.heap)
     (hesc : ∀ a : Nat, a ∈ s'.escaped → a ∈ s.escaped ∨ (s.heap.length ≤ a ∧ a < s'.heap.length))
     (himp : ∀ a : Nat, a ∈ s.imported → a ∈ s'.imported)
-    (himpH : ∀ a : Nat, a ∈ s.importedH → a ∈ s'.importedH)
     (hcur : ∀ a : Nat, a ∈ dictAddrs s'.current →
       a ∈ dictAddrs s.current ∨ (a < s'.heap.length ∧ (a ∈ s'.escaped → a ∈ s'.imported)))
     (hhc : ∀ a : Nat, a ∈ histAddrs s'.history ∨ a ∈ cacheAddrs s'.cache →
-      (a ∈ histAddrs s.history ∨ a ∈ cacheAddrs s.cache) ∨
-      (a < s'.heap.length ∧ (a ∈ s'.escaped → a ∈ s'.importedH))) : Inv s' := by
+      (a ∈ histAddrs s.history ∨ a ∈ cacheAddrs s.cache) ∨ (a < s'.heap.length ∧ a ∉ s'.escaped)) : Inv s' := by
   have hle := hext.le
   refine ⟨fun a ha => ?_, fun a ha => ?_, fun a ha he => ?_, fun a ha he => ?_⟩
   · rw [mem_reach] at ha
@@ -566,25 +564,25 @@ theorem Inv.of_step {s s' : State} (hI : Inv s) (hext : Ext s.heap s'.heap)
   · rcases hhc a ha with h | h
     · have h1 := hI.reach_lt a (mem_reach.2 (Or.inr h))
       rcases hesc a he with h2 | h2
-      · exact himpH a (hI.sepH a h h2)
+      · exact hI.sepH a h h2
       · omega
     · exact h.2 he
 
 theorem inv_resolve {s : State} {h' : Heap} {e' : List Addr} (hI : Inv s) (sp : ResSpec s.heap s.escaped h' e') :
     Inv { s with heap := h', escaped := e' } :=
-  hI.of_step sp.ext sp.fresh (fun _ h => h) (fun _ h => h) (fun _ h => Or.inl h) (fun _ h => Or.inl h)
+  hI.of_step sp.ext sp.fresh (fun _ h => h) (fun _ h => Or.inl h) (fun _ h => Or.inl h)
 
 theorem inv_escape {s : State} {h' : Heap} {new : List Addr} (hI : Inv s) (hext : Ext s.heap h')
     (hnew : ∀ a : Nat, a ∈ new → s.heap.length ≤ a ∧ a < h'.length) :
     Inv { s with heap := h', escaped := new ++ s.escaped } := by
-  refine hI.of_step hext (fun a ha => ?_) (fun _ h => h) (fun _ h => h) (fun _ h => Or.inl h) (fun _ h => Or.inl h)
+  refine hI.of_step hext (fun a ha => ?_) (fun _ h => h) (fun _ h => Or.inl h) (fun _ h => Or.inl h)
   simp only [List.mem_append] at ha
   rcases ha with ha | ha
   · exact Or.inr (hnew a ha)
   · exact Or.inl ha
 
 theorem inv_cache_none {s : State} (hI : Inv s) : Inv { s with cache := none } := by
-  refine hI.of_step (Ext.refl _) (fun _ h => Or.inl h) (fun _ h => h) (fun _ h => h) (fun _ h => Or.inl h)
+  refine hI.of_step (Ext.refl _) (fun _ h => Or.inl h) (fun _ h => h) (fun _ h => Or.inl h)
     (fun a ha => Or.inl ?_)
   simp only [cacheAddrs, List.not_mem_nil, or_false] at ha
   exact Or.inl ha
@@ -603,7 +601,7 @@ theorem inv_storeCurrent {s : State} {k : Key} {v : Val} {copy : Bool} (hI : Inv
     (hv : ∀ a : Nat, a ∈ v.addrs → a ∈ s.escaped) : Inv (storeCurrent s k v copy) := by
   unfold storeCurrent
   split
-  · refine hI.of_step (copyVal_ext _ _) (fun _ h => Or.inl h) (fun _ h => h) (fun _ h => h) (fun a ha => ?_)
+  · refine hI.of_step (copyVal_ext _ _) (fun _ h => Or.inl h) (fun _ h => h) (fun a ha => ?_)
       (fun _ h => Or.inl h)
     rcases dictAddrs_insert ha with h1 | h1
     · exact Or.inl h1
@@ -611,7 +609,7 @@ theorem inv_storeCurrent {s : State} {k : Key} {v : Val} {copy : Bool} (hI : Inv
       refine Or.inr ⟨hf.2, fun he => ?_⟩
       have := hI.esc_lt a he
       omega
-  · refine hI.of_step (Ext.refl _) (fun _ h => Or.inl h) (fun a h => List.mem_append_right _ h) (fun _ h => h)
+  · refine hI.of_step (Ext.refl _) (fun _ h => Or.inl h) (fun a h => List.mem_append_right _ h)
       (fun a ha => ?_) (fun _ h => Or.inl h)
     rcases dictAddrs_insert ha with h1 | h1
     · exact Or.inl h1
@@ -646,18 +644,18 @@ theorem inv_updLoop {copy : Bool} {kvs : List (Key × Val)} {s : State} (hI : In
 theorem commitLoop_frame (ks : List Key) (s : State) :
     (commitLoop ks s).current = s.current ∧ (commitLoop ks s).cache = s.cache ∧
     (commitLoop ks s).escaped = s.escaped ∧ (commitLoop ks s).imported = s.imported ∧
-    Ext s.heap (commitLoop ks s).heap ∧ (commitLoop ks s).importedH = s.importedH := by
+    Ext s.heap (commitLoop ks s).heap := by
   induction ks generalizing s with
-  | nil => exact ⟨rfl, rfl, rfl, rfl, Ext.refl _, rfl⟩
+  | nil => exact ⟨rfl, rfl, rfl, rfl, Ext.refl _⟩
   | cons k ks ih =>
     simp only [commitLoop]
     split
     · split
       · exact ih s
       · rename_i v _ _
-        obtain ⟨h1, h2, h3, h4, h5, h6⟩ :=
+        obtain ⟨h1, h2, h3, h4, h5⟩ :=
           ih { s with heap := (copyVal s.heap v).1, history := adjust k (fun l => l ++ [(copyVal s.heap v).2]) s.history }
-        exact ⟨h1, h2, h3, h4, (copyVal_ext _ _).trans h5, h6⟩
+        exact ⟨h1, h2, h3, h4, (copyVal_ext _ _).trans h5⟩
     · exact ih s
 
 theorem inv_commitLoop {ks : List Key} {s : State} (hI : Inv s) : Inv (commitLoop ks s) := by
@@ -669,7 +667,7 @@ theorem inv_commitLoop {ks : List Key} {s : State} (hI : Inv s) : Inv (commitLoo
     · split
       · exact ih hI
       · apply ih
-        refine hI.of_step (copyVal_ext _ _) (fun _ h => Or.inl h) (fun _ h => h) (fun _ h => h) (fun _ h => Or.inl h)
+        refine hI.of_step (copyVal_ext _ _) (fun _ h => Or.inl h) (fun _ h => h) (fun _ h => Or.inl h)
           (fun a ha => ?_)
         rcases ha with ha | ha
         · rcases histAddrs_adjust_snoc ha with h1 | h1
@@ -761,7 +759,7 @@ theorem step_inv (s : State) (o : Op) (hI : Inv s) : Inv (step s o).1 := by
     · rename_i hc
       have hfe := fillCache_ext s.history s.heap []
       split
-      · refine hI.of_step hfe (fun _ h => Or.inl h) (fun _ h => h) (fun _ h => h) (fun _ h => Or.inl h) (fun a ha => ?_)
+      · refine hI.of_step hfe (fun _ h => Or.inl h) (fun _ h => h) (fun _ h => Or.inl h) (fun a ha => ?_)
         rcases ha with ha | ha
         · exact Or.inl (Or.inl ha)
         · simp only [cacheAddrs] at ha
@@ -773,7 +771,7 @@ theorem step_inv (s : State) (o : Op) (hI : Inv s) : Inv (step s o).1 := by
       · -- cache filled, then copies handed out
         have h1 : Inv { s with heap := (fillCache s.history s.heap []).1 ++ [logwStub (fillCache s.history s.heap []).1 s.history],
                                cache := some (insert "logw" (.ref (fillCache s.history s.heap []).1.length) (fillCache s.history s.heap []).2.1) } := by
-          refine hI.of_step (hfe.trans (Ext.snoc _ _)) (fun _ h => Or.inl h) (fun _ h => h) (fun _ h => h)
+          refine hI.of_step (hfe.trans (Ext.snoc _ _)) (fun _ h => Or.inl h) (fun _ h => h)
             (fun _ h => Or.inl h) (fun a ha => ?_)
           rcases ha with ha | ha
           · exact Or.inl (Or.inl ha)
@@ -810,30 +808,32 @@ theorem step_inv (s : State) (o : Op) (hI : Inv s) : Inv (step s o).1 := by
     simp only [step]
     split
     · exact hI
-    · rename_i hl
-      replace hl : dictLegal s.escaped (entries cur) = true ∧ histLegal s.escaped (entries hist) = true := by simpa using hl
-      have sp1 := resolveDict_spec s.heap s.escaped (entries cur)
-      have hl2 : histLegal (resolveDict s.heap s.escaped (entries cur)).2.1 (entries hist) = true := by
-        have := hl.2
-        simp only [histLegal, List.all_eq_true] at this ⊢
-        intro y hy z hz
-        exact legal_mono sp1.mono (this y hy z hz)
+    · have sp1 := resolveDict_spec s.heap s.escaped (entries cur)
       have sp2 := resolveHist_spec (resolveDict s.heap s.escaped (entries cur)).1 (resolveDict s.heap s.escaped (entries cur)).2.1 (entries hist)
       have h1 := inv_resolve hI (sp1.trans sp2)
-      have hc := resolveDict_legal (h := s.heap) hl.1
-      have hh := resolveHist_legal (h := (resolveDict s.heap s.escaped (entries cur)).1) hl2
-      refine h1.of_step (Ext.refl _) (fun _ h => Or.inl h) (fun a h => ?_) (fun a h => ?_) (fun a ha => ?_) (fun a ha => ?_)
-      · simp only [List.mem_append]; exact Or.inr h
-      · simp only [List.mem_append]; exact Or.inr h
+      have e1 := copyDict_ext (resolveHist (resolveDict s.heap s.escaped (entries cur)).1 (resolveDict s.heap s.escaped (entries cur)).2.1 (entries hist)).1
+        (resolveDict s.heap s.escaped (entries cur)).2.2
+      have e2 := copyHist_ext (copyDict (resolveHist (resolveDict s.heap s.escaped (entries cur)).1 (resolveDict s.heap s.escaped (entries cur)).2.1 (entries hist)).1
+        (resolveDict s.heap s.escaped (entries cur)).2.2).1
+        (resolveHist (resolveDict s.heap s.escaped (entries cur)).1 (resolveDict s.heap s.escaped (entries cur)).2.1 (entries hist)).2.2
+      have l1 := e1.le
+      have l2 := e2.le
+      refine h1.of_step (e1.trans e2) (fun _ h => Or.inl h) (fun _ h => h) (fun a ha => ?_) (fun a ha => ?_)
       · rcases dictAddrs_updateAll ha with h2 | h2
         · exact Or.inl h2
-        · have he := sp2.mono a (hc a h2)
-          exact Or.inr ⟨h1.esc_lt a he, fun _ => by simp only [List.mem_append]; exact Or.inl h2⟩
+        · have hf := copyDict_fresh h2
+          refine Or.inr ⟨by simp only; omega, fun he => ?_⟩
+          have := h1.esc_lt a he
+          simp only at this
+          omega
       · simp only [cacheAddrs, List.not_mem_nil, or_false] at ha
         rcases histAddrs_updateAll ha with h2 | h2
         · exact Or.inl (Or.inl h2)
-        · have he := hh a h2
-          exact Or.inr ⟨h1.esc_lt a he, fun _ => by simp only [List.mem_append]; exact Or.inl h2⟩
+        · have hf := copyHist_fresh h2
+          refine Or.inr ⟨hf.2, fun he => ?_⟩
+          have := h1.esc_lt a he
+          simp only at this
+          omega
   | scribble a p =>
     simp only [step]
     split
@@ -872,6 +872,9 @@ def Arg.heldAddrs : Arg → List Addr
 def Op.heldAddrs : Op → List Addr
   | .setCurrent _ x _ => x.heldAddrs
   | .updateCurrent kvs _ => kvs.flatMap (fun kv => kv.2.heldAddrs)
+  | .updateFromDict cur hist =>
+    (entries cur).flatMap (fun kv => kv.2.heldAddrs) ++
+    (entries hist).flatMap (fun kv => kv.2.flatMap Arg.heldAddrs)
   | _ => []
 
 def Op.isScribble : Op → Bool
@@ -894,6 +897,38 @@ theorem resolveDict_addrs {h : Heap} {esc : List Addr} {l : List (Key × Arg)} {
       · exact Or.inl (Or.inl h1)
       · exact Or.inr h1
     · have hle := (resolveArg_spec h esc x).ext.le
+      rcases ih hb with h1 | h1
+      · exact Or.inl (Or.inr h1)
+      · exact Or.inr (by omega)
+
+theorem resolveList_addrs {h : Heap} {esc : List Addr} {l : List Arg} {b : Nat}
+    (hb : b ∈ listAddrs (resolveList h esc l).2.2) : b ∈ l.flatMap Arg.heldAddrs ∨ h.length ≤ b := by
+  induction l generalizing h esc with
+  | nil => simp [resolveList, listAddrs] at hb
+  | cons x xs ih =>
+    simp only [resolveList, listAddrs, List.flatMap_cons, List.mem_append] at hb ⊢
+    rcases hb with hb | hb
+    · rcases resolveArg_addrs hb with h1 | h1
+      · exact Or.inl (Or.inl h1)
+      · exact Or.inr h1
+    · have hle := (resolveArg_spec h esc x).ext.le
+      rcases ih hb with h1 | h1
+      · exact Or.inl (Or.inr h1)
+      · exact Or.inr (by omega)
+
+theorem resolveHist_addrs {h : Heap} {esc : List Addr} {l : List (Key × List Arg)} {b : Nat}
+    (hb : b ∈ histAddrs (resolveHist h esc l).2.2) :
+    b ∈ l.flatMap (fun kv => kv.2.flatMap Arg.heldAddrs) ∨ h.length ≤ b := by
+  induction l generalizing h esc with
+  | nil => simp [resolveHist, histAddrs] at hb
+  | cons kx xs ih =>
+    obtain ⟨k, x⟩ := kx
+    simp only [resolveHist, histAddrs, List.flatMap_cons, List.mem_append] at hb ⊢
+    rcases hb with hb | hb
+    · rcases resolveList_addrs hb with h1 | h1
+      · exact Or.inl (Or.inl h1)
+      · exact Or.inr h1
+    · have hle := (resolveList_spec h esc x).ext.le
       rcases ih hb with h1 | h1
       · exact Or.inl (Or.inr h1)
       · exact Or.inr (by omega)
@@ -1069,10 +1104,30 @@ theorem step_poke {s : State} {o : Op} {a : Nat} {c : Option Content} (ha : a < 
     have ha1 : a < (copyDict s.heap s.current).1.length := Nat.lt_of_lt_of_le ha (copyDict_ext _ _).le
     simp [step, poke, copyDict_set ha hcur, copyHist_set ha1 hhist]
   | updateFromDict cur hist =>
-    have ha1 : a < (resolveDict s.heap s.escaped (entries cur)).1.length :=
-      Nat.lt_of_lt_of_le ha (resolveDict_spec _ _ _).ext.le
+    simp only [Op.heldAddrs, List.mem_append, not_or] at hh
+    have l1 := (resolveDict_spec s.heap s.escaped (entries cur)).ext.le
+    have l2 := (resolveHist_spec (resolveDict s.heap s.escaped (entries cur)).1
+      (resolveDict s.heap s.escaped (entries cur)).2.1 (entries hist)).ext.le
+    have ha1 : a < (resolveDict s.heap s.escaped (entries cur)).1.length := by omega
+    have ha2 : a < (resolveHist (resolveDict s.heap s.escaped (entries cur)).1
+      (resolveDict s.heap s.escaped (entries cur)).2.1 (entries hist)).1.length := by omega
+    have hv1 : a ∉ dictAddrs (resolveDict s.heap s.escaped (entries cur)).2.2 := by
+      intro hm
+      rcases resolveDict_addrs hm with h1 | h1
+      · exact hh.1 h1
+      · omega
+    have hv2 : a ∉ histAddrs (resolveHist (resolveDict s.heap s.escaped (entries cur)).1
+        (resolveDict s.heap s.escaped (entries cur)).2.1 (entries hist)).2.2 := by
+      intro hm
+      rcases resolveHist_addrs hm with h1 | h1
+      · exact hh.2 h1
+      · omega
+    have ha3 : a < (copyDict (resolveHist (resolveDict s.heap s.escaped (entries cur)).1
+        (resolveDict s.heap s.escaped (entries cur)).2.1 (entries hist)).1
+        (resolveDict s.heap s.escaped (entries cur)).2.2).1.length :=
+      Nat.lt_of_lt_of_le ha2 (copyDict_ext _ _).le
     cases hlg : (dictLegal s.escaped (entries cur) && histLegal s.escaped (entries hist)) <;>
-      simp [step, poke, resolveDict_set ha, resolveHist_set ha1, hlg]
+      simp [step, poke, resolveDict_set ha, resolveHist_set ha1, copyDict_set ha2 hv1, copyHist_set ha3 hv2, hlg]
   | scribble b p => simp [Op.isScribble] at hs
 
 /-! ### payload reads under in-place writes and under allocation -/
@@ -1200,7 +1255,7 @@ theorem step_ext (s : State) (o : Op) (hs : o.isScribble = false) : Ext s.heap (
     simp only [step]
     split
     · exact Ext.refl _
-    · exact (commitLoop_frame commitKeys s).2.2.2.2.1
+    · exact (commitLoop_frame commitKeys s).2.2.2.2
   | computeResults =>
     simp only [step]
     split
@@ -1215,7 +1270,8 @@ theorem step_ext (s : State) (o : Op) (hs : o.isScribble = false) : Ext s.heap (
     simp only [step]
     split
     · exact Ext.refl _
-    · exact (resolveDict_spec _ _ _).ext.trans (resolveHist_spec _ _ _).ext
+    · exact (((resolveDict_spec _ _ _).ext.trans (resolveHist_spec _ _ _).ext).trans (copyDict_ext _ _)).trans
+        (copyHist_ext _ _)
   | scribble a p => simp [Op.isScribble] at hs
 
 theorem step_heap_length_le (s : State) (o : Op) : s.heap.length ≤ (step s o).1.heap.length := by
@@ -1296,22 +1352,10 @@ def Op.isImport : Op → Bool
   | .updateFromDict _ _ => true
   | _ => false
 
-theorem updLoop_importedH (copy : Bool) (kvs : List (Key × Val)) (s : State) :
-    (updLoop copy kvs s).1.importedH = s.importedH := by
-  induction kvs generalizing s with
-  | nil => rfl
-  | cons kv r ih =>
-    obtain ⟨k, v⟩ := kv
-    simp only [updLoop]
-    split
-    · rw [ih]; unfold storeCurrent; split <;> rfl
-    · rfl
-
 /-- operations by which the caller asks for a reference to be stored as is -/
 def Op.optIn : Op → Bool
   | .setCurrent _ _ copy => !copy
   | .updateCurrent _ copy => !copy
-  | .updateFromDict _ _ => true
   | _ => false
 
 theorem updLoop_imported (kvs : List (Key × Val)) (s : State) : (updLoop true kvs s).1.imported = s.imported := by
@@ -1374,54 +1418,7 @@ theorem step_imported (s : State) (o : Op) (ho : o.optIn = false) : (step s o).1
   | computeResults => simp only [step]; split <;> (try split) <;> rfl
   | logw beta => rfl
   | toDict => rfl
-  | updateFromDict cur hist => simp [Op.optIn] at ho
-  | scribble a p => simp only [step]; split <;> rfl
-
-theorem step_importedH (s : State) (o : Op) (ho : o.isImport = false) : (step s o).1.importedH = s.importedH := by
-  cases o with
-  | setCurrent k x copy =>
-    simp only [step]
-    split
-    · rfl
-    · split
-      · rfl
-      · unfold storeCurrent; split <;> rfl
-  | updateCurrent kvs copy =>
-    simp only [step]
-    split
-    · rfl
-    · split <;> simp [updLoop_importedH]
-  | getCurrent k =>
-    cases k with
-    | some k => simp only [step]; split <;> (try split) <;> rfl
-    | none => rfl
-  | getHistory k index flat =>
-    simp only [step]
-    split
-    · rfl
-    · split
-      · rfl
-      · split
-        · split <;> rfl
-        · split
-          · rfl
-          · split <;> rfl
-  | getLastHistory k =>
-    simp only [step]
-    split
-    · rfl
-    · split
-      · rfl
-      · split <;> rfl
-  | commit strict =>
-    simp only [step]
-    split
-    · rfl
-    · exact (commitLoop_frame commitKeys s).2.2.2.2.2
-  | computeResults => simp only [step]; split <;> (try split) <;> rfl
-  | logw beta => rfl
-  | toDict => rfl
-  | updateFromDict cur hist => simp [Op.isImport] at ho
+  | updateFromDict cur hist => simp only [step]; split <;> rfl
   | scribble a p => simp only [step]; split <;> rfl
 
 theorem step_escaped_mono (s : State) (o : Op) : ∀ a : Nat, a ∈ s.escaped → a ∈ (step s o).1.escaped := by
@@ -1589,7 +1586,7 @@ theorem commitLoop_history {ks : List Key} (hnd : ks.Nodup) (s : State)
       have hcur' : ∀ b : Nat, b ∈ dictAddrs s.current → b < (copyVal s.heap v).1.length :=
         fun b hb => Nat.lt_of_lt_of_le (hcur b hb) hext.le
       obtain ⟨ext, e1, e2, e3⟩ := ih hnd' { s with heap := (copyVal s.heap v).1, history := adjust k0 (fun l => l ++ [(copyVal s.heap v).2]) s.history } hcur'
-      have hfin := (commitLoop_frame ks { s with heap := (copyVal s.heap v).1, history := adjust k0 (fun l => l ++ [(copyVal s.heap v).2]) s.history }).2.2.2.2.1
+      have hfin := (commitLoop_frame ks { s with heap := (copyVal s.heap v).1, history := adjust k0 (fun l => l ++ [(copyVal s.heap v).2]) s.history }).2.2.2.2
       simp only at e1 e2 e3 hfin
       by_cases hk : k = k0
       · subst hk
@@ -1688,6 +1685,14 @@ theorem step_res_escaped (s : State) (o : Op) : ∀ b : Nat, b ∈ (step s o).2.
 /-- an operation through which the caller neither asks for sharing nor passes back an array it obtained earlier -/
 def Op.clean (o : Op) : Bool := !o.optIn && o.heldAddrs.isEmpty && !o.isScribble
 
+/-- an operation sequence in which the caller never opts into sharing (`copy=False`) and never passes back in an array
+    that it has overwritten before (`scr` = addresses overwritten so far).  Passing back arrays it obtained and left
+    alone — e.g. re-importing an exported dictionary — is allowed, and so is overwriting them afterwards. -/
+def okSeq : List Addr → List Op → Bool
+  | _, [] => true
+  | scr, .scribble a p :: os => okSeq (a :: scr) os
+  | scr, o :: os => !o.optIn && o.heldAddrs.all (fun h => !scr.contains h) && okSeq scr os
+
 /-- what the caller sees: after every operation other than its own in-place writes, the payload of the returned value
     and every observable read -/
 def trace (s : State) : List Op → List (PRes × Obs)
@@ -1702,7 +1707,7 @@ def pokeMany (t : State) (l : List (Nat × Option Content)) : State :=
 theorem pokeMany_frame (l : List (Nat × Option Content)) (t : State) :
     (pokeMany t l).current = t.current ∧ (pokeMany t l).history = t.history ∧ (pokeMany t l).cache = t.cache ∧
     (pokeMany t l).escaped = t.escaped ∧ (pokeMany t l).imported = t.imported ∧
-    (pokeMany t l).heap.length = t.heap.length ∧ (pokeMany t l).importedH = t.importedH := by
+    (pokeMany t l).heap.length = t.heap.length := by
   induction l generalizing t with
   | nil => simp [pokeMany]
   | cons ac l ih =>
@@ -1712,17 +1717,19 @@ theorem pokeMany_frame (l : List (Nat × Option Content)) (t : State) :
 theorem reach_poke (s : State) (a : Nat) (c : Option Content) : reach (poke s a c) = reach s := rfl
 
 theorem step_pokeMany {o : Op} {l : List (Nat × Option Content)} {t : State}
-    (hl : ∀ ac ∈ l, ac.1 < t.heap.length ∧ ac.1 ∉ reach t) (hh : o.heldAddrs = []) (hs : o.isScribble = false) :
+    (hl : ∀ ac ∈ l, ac.1 < t.heap.length ∧ ac.1 ∉ reach t) (hh : ∀ ac ∈ l, ac.1 ∉ o.heldAddrs)
+    (hs : o.isScribble = false) :
     step (pokeMany t l) o = (pokeMany (step t o).1 l, (step t o).2) := by
   induction l generalizing t with
   | nil => rfl
   | cons ac l ih =>
     have h0 := hl ac (by simp)
     have h1 : step (poke t ac.1 ac.2) o = (poke (step t o).1 ac.1 ac.2, (step t o).2) :=
-      step_poke h0.1 h0.2 (by simp [hh]) hs
+      step_poke h0.1 h0.2 (hh ac (by simp)) hs
     have h2 := ih (t := poke t ac.1 ac.2) (fun x hx => by
       have := hl x (List.mem_cons_of_mem _ hx)
       exact ⟨by simpa [poke] using this.1, by rw [reach_poke]; exact this.2⟩)
+      (fun x hx => hh x (List.mem_cons_of_mem _ hx))
     simp only [pokeMany, List.foldl_cons] at h2 ⊢
     rw [h2, h1]
 
@@ -1770,34 +1777,72 @@ theorem derefRes_pokeMany {l : List (Nat × Option Content)} {t : State} {r : Re
     rw [h2]
     exact derefRes_set (hl ac (by simp))
 
-theorem not_reach_of_inv {t : State} (hI : Inv t) {a : Nat} (ha : a ∈ t.escaped) (h1 : a ∉ t.imported)
-    (h2 : a ∉ t.importedH) : a ∉ reach t := by
+theorem not_reach_of_inv {t : State} (hI : Inv t) {a : Nat} (ha : a ∈ t.escaped) (h1 : a ∉ t.imported) :
+    a ∉ reach t := by
   intro hr
   rcases mem_reach.1 hr with h | h
   · exact h1 (hI.sep a h ha)
-  · exact h2 (hI.sepH a h ha)
+  · exact hI.sepH a h ha
 
-theorem safe_of_inv {t : State} (hI : Inv t) (himp : t.imported = []) (himpH : t.importedH = []) {a : Nat}
+theorem safe_of_inv {t : State} (hI : Inv t) (himp : t.imported = []) {a : Nat}
     (ha : a ∈ t.escaped) : a < t.heap.length ∧ a ∉ reach t :=
-  ⟨hI.esc_lt a ha, not_reach_of_inv hI ha (by simp [himp]) (by simp [himpH])⟩
+  ⟨hI.esc_lt a ha, not_reach_of_inv hI ha (by simp [himp])⟩
 
 theorem clean_spec {o : Op} (h : o.clean = true) : o.optIn = false ∧ o.heldAddrs = [] ∧ o.isScribble = false := by
   simp only [Op.clean, Bool.and_eq_true, Bool.not_eq_true', List.isEmpty_iff] at h
   exact ⟨h.1.1, h.1.2, h.2⟩
 
-theorem trace_pokeMany (ops : List Op) : ∀ (t : State) (l : List (Nat × Option Content)), Inv t → t.imported = [] →
-    t.importedH = [] → (∀ ac ∈ l, ac.1 ∈ t.escaped) → (∀ o ∈ ops, o.isScribble = true ∨ o.clean = true) →
+theorem legal_held {esc : List Addr} {x : Arg} (hl : x.legal esc = true) : ∀ a : Nat, a ∈ x.heldAddrs → a ∈ esc := by
+  cases x <;> simp_all [Arg.legal, Arg.heldAddrs]
+
+theorem dictLegal_held {esc : List Addr} {d : List (Key × Arg)} (hl : dictLegal esc d = true) :
+    ∀ a : Nat, a ∈ d.flatMap (fun kv => kv.2.heldAddrs) → a ∈ esc := by
+  intro a ha
+  simp only [List.mem_flatMap] at ha
+  obtain ⟨kv, hm, hx⟩ := ha
+  simp only [dictLegal, List.all_eq_true] at hl
+  exact legal_held (hl kv hm) a hx
+
+theorem histLegal_held {esc : List Addr} {d : List (Key × List Arg)} (hl : histLegal esc d = true) :
+    ∀ a : Nat, a ∈ d.flatMap (fun kv => kv.2.flatMap Arg.heldAddrs) → a ∈ esc := by
+  intro a ha
+  simp only [List.mem_flatMap] at ha
+  obtain ⟨kv, hm, x, hx, hax⟩ := ha
+  simp only [histLegal, List.all_eq_true] at hl
+  exact legal_held (hl kv hm x hx) a hax
+
+theorem okSeq_cons {scr : List Addr} {o : Op} {os : List Op} (hs : o.isScribble = false)
+    (h : okSeq scr (o :: os) = true) :
+    o.optIn = false ∧ (∀ x : Nat, x ∈ o.heldAddrs → x ∉ scr) ∧ okSeq scr os = true := by
+  cases o <;> simp_all [okSeq, Op.isScribble]
+
+theorem okSeq_of_clean {ops : List Op} (h : ∀ o ∈ ops, o.isScribble = true ∨ o.clean = true) (scr : List Addr) :
+    okSeq scr ops = true := by
+  induction ops generalizing scr with
+  | nil => rfl
+  | cons o os ih =>
+    have hos : ∀ o ∈ os, o.isScribble = true ∨ o.clean = true := fun x hx => h x (List.mem_cons_of_mem _ hx)
+    rcases h o (by simp) with hsc | hcl
+    · cases o with
+      | scribble a p => simp only [okSeq]; exact ih hos _
+      | _ => simp [Op.isScribble] at hsc
+    · obtain ⟨h1, h2, h3⟩ := clean_spec hcl
+      cases o <;> simp_all [okSeq, Op.isScribble]
+
+theorem trace_pokeMany (ops : List Op) : ∀ (t : State) (l : List (Nat × Option Content)) (scr : List Addr), Inv t →
+    t.imported = [] → (∀ ac ∈ l, ac.1 ∈ t.escaped ∧ ac.1 ∈ scr) → okSeq scr ops = true →
     trace (pokeMany t l) ops = trace t (ops.filter (fun o => !o.isScribble)) := by
   induction ops with
   | nil => intros; rfl
   | cons o os ih =>
-    intro t l hI himp himpH hl hops
-    have hos : ∀ o ∈ os, o.isScribble = true ∨ o.clean = true := fun x hx => hops x (List.mem_cons_of_mem _ hx)
+    intro t l scr hI himp hl hops
     have hfr := pokeMany_frame l t
-    rcases hops o (by simp) with hsc | hcl
-    · -- the caller's own write: it only lengthens the list of pending writes
+    cases hsc : o.isScribble with
+    | true =>
+      -- the caller's own write: it only lengthens the list of pending writes
       cases o with
       | scribble a p =>
+        have hos : okSeq (a :: scr) os = true := by simpa [okSeq] using hops
         have hstep : (step (pokeMany t l) (.scribble a p)).1 =
             if a ∈ t.escaped then pokeMany t (l ++ [(a, some p)]) else pokeMany t l := by
           by_cases hm : a ∈ t.escaped
@@ -1813,31 +1858,30 @@ theorem trace_pokeMany (ops : List Op) : ∀ (t : State) (l : List (Nat × Optio
         rw [e1, e2, hstep]
         split
         · rename_i hmem
-          refine ih t _ hI himp himpH (fun ac hac => ?_) hos
+          refine ih t _ (a :: scr) hI himp (fun ac hac => ?_) hos
           simp only [List.mem_append, List.mem_singleton] at hac
           rcases hac with hac | hac
-          · exact hl ac hac
-          · subst hac; exact hmem
-        · exact ih t l hI himp himpH hl hos
+          · exact ⟨(hl ac hac).1, List.mem_cons_of_mem _ (hl ac hac).2⟩
+          · subst hac; exact ⟨hmem, by simp⟩
+        · exact ih t l (a :: scr) hI himp (fun ac hac => ⟨(hl ac hac).1, List.mem_cons_of_mem _ (hl ac hac).2⟩) hos
       | _ => simp [Op.isScribble] at hsc
-    · obtain ⟨hopt, hheld, hns⟩ := clean_spec hcl
-      have hsafe : ∀ ac ∈ l, ac.1 < t.heap.length ∧ ac.1 ∉ reach t := fun ac hac => safe_of_inv hI himp himpH (hl ac hac)
-      have hstep := step_pokeMany hsafe hheld hns
+    | false =>
+      obtain ⟨hopt, hheld, hos⟩ := okSeq_cons hsc hops
+      have hsafe : ∀ ac ∈ l, ac.1 < t.heap.length ∧ ac.1 ∉ reach t := fun ac hac => safe_of_inv hI himp (hl ac hac).1
+      have hstep := step_pokeMany (o := o) hsafe (fun ac hac hm => hheld _ hm (hl ac hac).2) hsc
       have hI' := step_inv t o hI
       have himp' : (step t o).1.imported = [] := by rw [step_imported t o hopt, himp]
-      have hni : o.isImport = false := by
-        cases o <;> simp_all [Op.isImport, Op.optIn]
-      have himpH' : (step t o).1.importedH = [] := by rw [step_importedH t o hni, himpH]
-      have hl' : ∀ ac ∈ l, ac.1 ∈ (step t o).1.escaped := fun ac hac => step_escaped_mono t o _ (hl ac hac)
+      have hl' : ∀ ac ∈ l, ac.1 ∈ (step t o).1.escaped ∧ ac.1 ∈ scr :=
+        fun ac hac => ⟨step_escaped_mono t o _ (hl ac hac).1, (hl ac hac).2⟩
       have hsafe' : ∀ ac ∈ l, ac.1 < (step t o).1.heap.length ∧ ac.1 ∉ reach (step t o).1 :=
-        fun ac hac => safe_of_inv hI' himp' himpH' (hl' ac hac)
+        fun ac hac => safe_of_inv hI' himp' (hl' ac hac).1
       have hres : ∀ ac ∈ l, ac.1 ∉ (step t o).2.addrs := fun ac hac hm => by
         have h1 := step_res_fresh t o _ hm
         have h2 := (hsafe ac hac).1
         omega
-      simp only [trace, hns, Bool.false_eq_true, if_false, List.filter_cons, Bool.not_false, if_true]
+      simp only [trace, hsc, Bool.false_eq_true, if_false, List.filter_cons, Bool.not_false, if_true]
       rw [hstep]
       simp only [derefRes_pokeMany hres, observe_pokeMany hsafe']
-      rw [ih (step t o).1 l hI' himp' himpH' hl' hos]
+      rw [ih (step t o).1 l scr hI' himp' hl' hos]
 
 end Model.StateMgr
